@@ -13,6 +13,7 @@ import (
 	"github.com/ory/keto/verif/refsem"
 	"github.com/ory/keto/verif/sqlfault"
 	"github.com/ory/keto/verif/vsched"
+	"github.com/ory/x/sqlcon"
 )
 
 // TestC03: storage failures during a check never produce 'allowed'.
@@ -21,7 +22,7 @@ func TestC03(t *testing.T) {
 	shard, nshards, child := ev.Shard()
 	if !child {
 		cov := run.RunShards("TestC03", ev.Workers())
-		run.Assume("faults are injected at the storage interface the engine calls (Manager / Traverser): the k-th call in execution order fails, transiently or persistently, with a generic error, context.DeadlineExceeded or context.Canceled (a cancelled QUERY: the request context itself stays alive)",
+		run.Assume("faults are injected at the storage interface the engine calls (Manager / Traverser): the k-th call in execution order fails, transiently or persistently, with a generic error, context.DeadlineExceeded, context.Canceled (a cancelled QUERY: the request context itself stays alive) or a serialization failure (sqlcon.ErrConcurrentUpdate, the class a retry layer would look for)",
 			"'fault-free result' is the result of the same schedule without the fault (engine instrumented, deterministic)",
 			"storage = in-memory stand-in bound to the SQL persister by C01's conformance part")
 		run.Finish(cov)
@@ -34,10 +35,10 @@ func TestC03(t *testing.T) {
 	}
 	var cov struct {
 		triples, hit, changed, scenarios, schedRuns, batchRuns, reorderScen, sqlScen, sqlTriples int
-		complete                                               bool
+		complete                                                                                 bool
 	}
 	cov.complete = true
-	kinds := []error{memstore.ErrInjected, context.DeadlineExceeded, context.Canceled}
+	kinds := []error{memstore.ErrInjected, context.DeadlineExceeded, context.Canceled, sqlcon.ErrConcurrentUpdate}
 
 	judgeFault := func(sc *Scn, base, o CheckOut, plan memstore.FaultPlan, mode string, choices []int) {
 		rep := sc.Replay()
@@ -281,19 +282,19 @@ func TestC03(t *testing.T) {
 	}
 	_ = errors.New
 	run.FinishPart(map[string]any{
-		"evaluations":         cov.triples + cov.schedRuns + cov.batchRuns + cov.sqlTriples,
+		"evaluations":                 cov.triples + cov.schedRuns + cov.batchRuns + cov.sqlTriples,
 		"sql_statement_fault_triples": cov.sqlTriples,
-		"sql_scenarios":       cov.sqlScen,
-		"distinct_nontrivial": cov.changed,
-		"rule":                "for every scenario (all permission expressions with <=2 leaves x 7 tuple graphs) the fault-free run issues N storage calls; every (k in 1..N) x {transient, persistent} x {generic, deadline-exceeded} is injected under the base schedule, and the transient fault additionally under every schedule with one deviation for a third of the scenarios as far as the time cap allows (all when thorough); non-trivial = the fault was actually hit and changed the outcome (error or different answer)",
-		"fault_triples":       cov.triples,
-		"faults_hit":          cov.hit,
-		"faults_changing_outcome": cov.changed,
-		"scenarios":           cov.scenarios,
-		"reordered_fault_runs": cov.schedRuns,
-		"batch_runs":          cov.batchRuns,
-		"exhaustive":          cov.complete,
-		"reorder_scenarios":   cov.reorderScen,
-		"reorder_pass_complete": reorderComplete,
+		"sql_scenarios":               cov.sqlScen,
+		"distinct_nontrivial":         cov.changed,
+		"rule":                        "for every scenario (all permission expressions with <=2 leaves x 7 tuple graphs) the fault-free run issues N storage calls; every (k in 1..N) x {transient, persistent} x {generic, deadline-exceeded} is injected under the base schedule, and the transient fault additionally under every schedule with one deviation for a third of the scenarios as far as the time cap allows (all when thorough); non-trivial = the fault was actually hit and changed the outcome (error or different answer)",
+		"fault_triples":               cov.triples,
+		"faults_hit":                  cov.hit,
+		"faults_changing_outcome":     cov.changed,
+		"scenarios":                   cov.scenarios,
+		"reordered_fault_runs":        cov.schedRuns,
+		"batch_runs":                  cov.batchRuns,
+		"exhaustive":                  cov.complete,
+		"reorder_scenarios":           cov.reorderScen,
+		"reorder_pass_complete":       reorderComplete,
 	})
 }
